@@ -46,8 +46,11 @@ def run(cx: Cx):
     _worker(cx)
     check_no_swallow(cx, [GS, RUN, SCORE])
     # the grid is ParameterList.build(): independent dictionaries per combination (the workers write into them)
-    from .c14 import check_build
+    from .c14 import check_build, check_declaration
     check_build(cx)
+    check_declaration(cx)
+    from .common import check_no_stateful_memo
+    check_no_stateful_memo(cx)
 
 
 # ------------------------------------------------------------------------------------------------ R-EXH
